@@ -31,6 +31,17 @@ def run(ck, P):
     newf = P.fn("m_mem_new", U)
     ck.analysed(newf, P.fn("m_mem_ref", U), P.fn("m_mem_unref", U), P.fn("m_mem_size", U), P.fn("m_mem_unrefp", U))
 
+    # who calls the allocator — decided first: a block obtained elsewhere makes the rest moot
+    LIBC_ALLOC = {"malloc", "calloc", "realloc", "free", "strdup", "strndup", "posix_memalign", "aligned_alloc", "memalign", "valloc", "pvalloc",
+                  "reallocarray", "mmap"}
+    ck.rule("C10.6-MEMHOOK", "R-WHO-CALLS: no direct malloc/calloc/realloc/free/strdup/posix_memalign/aligned_alloc… call anywhere in Lib/ (allocation "
+            "goes through memhook; the only mention of the libc allocator is memhook's initialiser); no memhook entry is copied into storage "
+            "that outlives the call; m_set_memhook is all-or-nothing", floor=1)
+    direct = [ev for ev in P.calls_to(LIBC_ALLOC)]
+    ck.ob("C10.6-MEMHOOK", "Lib:direct libc allocator calls", not direct,
+          "none" if not direct else "direct call %s at %s: the block does not come from (or go back to) the configured allocator — after m_set_memhook() it "
+          "is handed to the other allocator's free" % (direct[0].callee, direct[0].where()), nontrivial=False)
+
     ck.rule("C10.1-ALIGN", "R-ALIGN (abstract interpretation of the SSA of m_mem_new, requested size = 16*K + r for each residue r, K>=0 "
             "symbolic): (returned pointer − allocation base) ≡ 0 mod alignof(max_align_t), given an allocator that returns "
             "max-aligned memory", floor=16)
@@ -214,11 +225,6 @@ def run(ck, P):
               ": the block '%s' itself is not known to be non-NULL here — releasing a NULL pointer, which is documented as a no-op, reads "
               "the byte before address 0" % S(a_)))
 
-    ck.rule("C10.6-MEMHOOK", "R-WHO-CALLS: no direct malloc/calloc/realloc/free/strdup call anywhere in Lib/ (allocation goes through memhook; "
-            "the only mention of the libc allocator is memhook's initialiser)", floor=1)
-    direct = [ev for ev in P.calls_to({"malloc", "calloc", "realloc", "free", "strdup", "strndup"})]
-    ck.ob("C10.6-MEMHOOK", "Lib:direct libc allocator calls", not direct,
-          "none" if not direct else "direct call %s at %s" % (direct[0].callee, direct[0].where()), nontrivial=False)
     # positive fixture for the zero-expected rule: memhook must resolve to the libc triple
     init = P.pointsto().pts.get(("global", "memhook"), set())
     ck.need({"malloc", "calloc", "free"} <= init, "memhook initialiser no longer names malloc/calloc/free (fixture for C10.6)")
